@@ -14,7 +14,7 @@ RULE = ("breadth-first exploration of ALL histories over the public Sequence ope
         "conversions lossless, result identical when the same content is prepared in each of the three freshness states "
         "(differential), and equal to a list-model prediction for the simple operations; the projected freshness "
         "automaton is closed to a fixed point. non-trivial = a mutator executed while the view it writes was stale")
-SCALE = ('two long contents (24 / 70 notes) explored to depth 2 with one absolute message inserted at EVERY slot (every stored tick and every tick between two of them) from all three freshness states, then 8 follow-up operations; one content with pauses of 1537, 4097 and 70001 ticks explored to depth 2 over the whole alphabet')
+SCALE = ('two long contents (24 / 70 notes) explored to depth 2 with one absolute message inserted at EVERY slot (every stored tick and every tick between two of them) from all three freshness states, then 8 follow-up operations; one content with pauses of 1537, 4097 and 70001 ticks explored to depth 2 over the whole alphabet; a content with non-integral ticks; operations adding a restated key / time signature')
 ASSUMPTIONS = ["freshness is read from the two private stale flags (harness-side read only)",
                "exceptions other than the 'references stale' SequenceException raised by an operation on ill-suited "
                "content (e.g. duration of an empty sequence) end that branch and are listed as outcome classes"]
